@@ -26,6 +26,8 @@ type memStore struct {
 	fail   map[int]bool
 	failOp string // "" = any, "has", "store", "get"
 	log    []string
+	onCall func(k int) // called at every store call with its index (used to cancel a context at an exact point)
+	delay  time.Duration
 }
 
 func newMemStore() *memStore {
@@ -35,6 +37,14 @@ func newMemStore() *memStore {
 func (s *memStore) tick(op string) bool {
 	k := s.calls
 	s.calls++
+	if s.onCall != nil {
+		s.onCall(k)
+	}
+	if s.delay > 0 {
+		s.mu.Unlock()
+		time.Sleep(s.delay)
+		s.mu.Lock()
+	}
 	return s.fail[k] && (s.failOp == "" || s.failOp == op)
 }
 
@@ -465,6 +475,60 @@ func runC06(cfg Config) {
 			rep.Count(caseLine, true, "fn:Copy/"+what, fmt.Sprintf("outcome:%v", err == nil))
 			if err == nil {
 				checkStore(wd, idx, caseLine)
+			}
+		}
+		// a context cancelled at an exact store call (also during the last few): a nil result must still mean
+		// that every referenced chunk is in the target store
+		for rep2 := 0; rep2 < 10; rep2++ {
+			total := len(ids)
+			k := rng.Intn(2*total + 2)
+			if rep2%2 == 0 {
+				k = 2*total - rng.Intn(2*n+2) // near the end
+				if k < 0 {
+					k = 0
+				}
+			}
+			for _, fn := range []string{"Copy", "ChopFile", "ChunkStream"} {
+				ctx, cancel := context.WithCancel(context.Background())
+				wt := newMemStore()
+				wt.delay = time.Duration(rng.Intn(150)) * time.Microsecond
+				cs := newMemStore()
+				for id, b := range data {
+					cs.chunks[id] = b
+				}
+				cs.delay = time.Duration(rng.Intn(150)) * time.Microsecond
+				trigger := func(kk int) {
+					if kk == k {
+						cancel()
+					}
+				}
+				if fn == "Copy" && rng.Intn(2) == 0 {
+					cs.onCall = trigger
+				} else {
+					wt.onCall = trigger
+				}
+				var err error
+				var ix desync.Index = idx
+				switch fn {
+				case "Copy":
+					err = desync.Copy(ctx, ids, cs, wt, n, desync.NewProgressBar(""))
+				case "ChopFile":
+					err = desync.ChopFile(ctx, blobFile, idx.Chunks, wt, n, desync.NewProgressBar(""))
+				default:
+					c, _ := desync.NewChunker(bytes.NewReader(blob), 48, 64, 128)
+					ix, err = desync.ChunkStream(ctx, c, wt, n)
+				}
+				cancel()
+				caseLine := fmt.Sprintf("cancel fn=%s n=%d at-call=%d of~%d it=%d seed=%d", fn, n, k, 2*total, it, cfg.Seed)
+				rep.Count(caseLine, true, "fn:"+fn+"/cancel", fmt.Sprintf("cancel-outcome:%v", err == nil))
+				if err == nil {
+					wt.mu.Lock()
+					checkStore(wt, ix, caseLine)
+					if fn == "ChunkStream" && ix.Length() != int64(len(blob)) {
+						monitor("success reported after a cancellation but the fresh index does not cover the input", caseLine)
+					}
+					wt.mu.Unlock()
+				}
 			}
 		}
 		for si, sched := range schedules {
